@@ -14,6 +14,7 @@ import InTotoModel.Model.KeyId
 import InTotoModel.Driver.RecordProto
 import InTotoModel.Driver.CodecProto
 import InTotoModel.Model.JsonText
+import InTotoModel.Model.AttestExt
 /-
   Executable model driver: one operation per input line, one canonical answer per line.
   Unknown or malformed operations answer `bad-op` (never a default).
@@ -58,6 +59,21 @@ def step (line : String) : String :=
       match Json.parseJ t with
       | some v => "ok " ++ showJV v
       | none => "none"
+    | none => "bad-op"
+  | "att_dec" :: kind :: toks =>
+    -- att_dec <statement|predicate> <JV>: decode as the untagged wrapper does and write again
+    match readJV toks with
+    | some (v, []) =>
+      let r := if kind == "statement" then some (AttestCodec.decStatement AttestCodec.stdExt v)
+        else if kind == "predicate" then some (AttestCodec.decPredicate AttestCodec.stdExt v) else none
+      match r with
+      | none => "bad-op"
+      | some none => "reject"
+      | some (some a) => "ok " ++ showJV (Json.norm (AttestCodec.encTop a))
+    | _ => "bad-op"
+  | ["timestamp", h] =>
+    match strOfHex h with
+    | some s => match Time.normTimeStamp s with | some t => "ok " ++ hexOfStr t | none => "none"
     | none => "bad-op"
   | ["readtext", h] =>
     -- serde_json::from_str::<Value>: `ok <value, objects as BTreeMaps>` or `none`
